@@ -140,3 +140,21 @@ def run_jobs(jobs: list, fn, nproc: int, scratch: str, watchdog: float = WATCHDO
                     results[cur] = {"hang": True, "killed": True}
                     spawn([(i, j) for (i, j) in rest if i != cur])
     return results
+
+
+def run_jobs_retry(jobs: list, fn, nproc: int, scratch: str, suspect) -> list:
+    """run_jobs, then every job whose result looks like a timeout / dead worker (suspect(result)) is run once
+    more, alone, with 6x the time limits: a loaded machine must not turn into an alarm."""
+    global JOB_TIMEOUT
+    results = run_jobs(jobs, fn, nproc, scratch)
+    again = [i for i, r in enumerate(results) if r is None or suspect(r)]
+    if again and len(again) <= 40:
+        old = JOB_TIMEOUT
+        JOB_TIMEOUT = 6 * old
+        try:
+            redo = run_jobs([jobs[i] for i in again], fn, min(4, nproc), scratch, watchdog=6 * WATCHDOG)
+        finally:
+            JOB_TIMEOUT = old
+        for i, r in zip(again, redo):
+            results[i] = r
+    return results
